@@ -582,4 +582,560 @@ theorem hasDup_eq_false_iff {ws : List String} : hasDup ws = false ↔ ws.Nodup 
 
 end Parse
 
+/-! ### the line parser as a function of the words of each line -/
+namespace Parse
+open Text
+
+/-- `parseLine` as a function of the words of the line -/
+def parseWords (k : Kind) (stateOk : Word → Bool) (st : Raw) (words : List Word) : Except Err Raw :=
+  match words with
+  | [] => .ok st
+  | w0 :: rest =>
+    let restS := rest.map str
+    if w0.head? == some '%' then .ok st
+    else if str w0 = "states" ∨ str w0 = "final" ∨ str w0 = "initial" then
+      let key := str w0
+      if st.items.lookup key |>.isSome then .error .runtimeError
+      else if hasDup restS then .error .runtimeError
+      else if key = "states" ∧ rest.isEmpty then .error .runtimeError
+      else if !rest.all stateOk then .error .runtimeError
+      else
+        let st' := { st with items := st.items ++ [(key, restS)] }
+        if key = "states" then .ok { st' with states := restS }
+        else if key = "final" then .ok { st' with final := restS }
+        else .ok { st' with initial := restS }
+    else if str w0 ∈ keywords k then
+      if st.items.lookup (str w0) |>.isSome then .error .runtimeError
+      else .ok { st with items := st.items ++ [(str w0, restS)] }
+    else
+      match rest with
+      | [] => .error .runtimeError
+      | [_] => .error .runtimeError
+      | q :: labels =>
+        if !stateOk w0 || !stateOk q then .error .runtimeError
+        else if !labels.all (labelOk k) then .error .runtimeError
+        else .ok { st with transitions := st.transitions ++ labels.map fun l => (str w0, l, str q) }
+
+/-- `strip` is irrelevant: the line parser only sees `line.split()` -/
+theorem parseLine_eq (k : Kind) (ok : Word → Bool) (st : Raw) (line : Word) :
+    parseLine k ok st line = parseWords k ok st (splitWs line) := by
+  unfold parseLine
+  rw [splitWs_strip]
+  rfl
+
+theorem parseLine_congr (k : Kind) (ok : Word → Bool) (st : Raw) {l1 l2 : Word} (h : splitWs l1 = splitWs l2) :
+    parseLine k ok st l1 = parseLine k ok st l2 := by
+  rw [parseLine_eq, parseLine_eq, h]
+
+theorem parseLine_blank (k : Kind) (ok : Word → Bool) (st : Raw) {line : Word} (h : splitWs line = []) :
+    parseLine k ok st line = .ok st := by
+  rw [parseLine_eq, h]; rfl
+
+@[simp] theorem parseWords_nil (k : Kind) (ok : Word → Bool) (st : Raw) : parseWords k ok st [] = .ok st := rfl
+
+theorem keywords_ne (k : Kind) {kw : String} (h : kw ∈ keywords k) :
+    kw ≠ "states" ∧ kw ≠ "final" ∧ kw ≠ "initial" ∧ kw.toList.head? ≠ some '%' := by
+  cases k <;> simp only [keywords, List.mem_cons, List.not_mem_nil, or_false] at h
+  · subst h; decide
+  · rcases h with h | h <;> subst h <;> decide
+  · rcases h with h | h | h <;> subst h <;> decide
+  · rcases h with h | h | h | h | h <;> subst h <;> decide
+
+theorem map_str_comp_toList (l : List String) : l.map (str ∘ String.toList) = l := by
+  induction l with
+  | nil => rfl
+  | cons s l ih => simp_all
+
+/-- a `states` line -/
+theorem parseWords_states (k : Kind) (ok : Word → Bool) (st : Raw) {w0 : Word} {names : List String}
+    (h0 : str w0 = "states")
+    (hnew : st.items.lookup "states" = none) (hnd : names.Nodup) (hne : names ≠ [])
+    (hok : ∀ n, n ∈ names → ok n.toList = true) :
+    parseWords k ok st (w0 :: names.map String.toList) =
+      .ok { st with items := st.items ++ [("states", names)], states := names } := by
+  have hh : (w0.head? == some '%') = false := by rw [str_eq_iff] at h0; subst h0; decide
+  have h1 : hasDup names = false := hasDup_eq_false_iff.mpr hnd
+  have h2 : (names.map String.toList).all ok = true := by
+    simp only [List.all_map, List.all_eq_true]; exact fun n hn => hok n hn
+  have h3 : (names.map String.toList).isEmpty = false := by cases names <;> simp_all
+  simp [parseWords, hh, h0, hnew, h1, h2, h3, map_str_comp_toList]
+
+/-- a `final` line (possibly without any name) -/
+theorem parseWords_final (k : Kind) (ok : Word → Bool) (st : Raw) {w0 : Word} {names : List String}
+    (h0 : str w0 = "final")
+    (hnew : st.items.lookup "final" = none) (hnd : names.Nodup)
+    (hok : ∀ n, n ∈ names → ok n.toList = true) :
+    parseWords k ok st (w0 :: names.map String.toList) =
+      .ok { st with items := st.items ++ [("final", names)], final := names } := by
+  have hh : (w0.head? == some '%') = false := by rw [str_eq_iff] at h0; subst h0; decide
+  have h1 : hasDup names = false := hasDup_eq_false_iff.mpr hnd
+  have h2 : (names.map String.toList).all ok = true := by
+    simp only [List.all_map, List.all_eq_true]; exact fun n hn => hok n hn
+  have e1 : ("final" = "states") = False := by decide
+  simp [parseWords, hh, h0, hnew, h1, h2, map_str_comp_toList, e1]
+
+/-- an `initial` line -/
+theorem parseWords_initial (k : Kind) (ok : Word → Bool) (st : Raw) {w0 : Word} {names : List String}
+    (h0 : str w0 = "initial")
+    (hnew : st.items.lookup "initial" = none) (hnd : names.Nodup)
+    (hok : ∀ n, n ∈ names → ok n.toList = true) :
+    parseWords k ok st (w0 :: names.map String.toList) =
+      .ok { st with items := st.items ++ [("initial", names)], initial := names } := by
+  have hh : (w0.head? == some '%') = false := by rw [str_eq_iff] at h0; subst h0; decide
+  have h1 : hasDup names = false := hasDup_eq_false_iff.mpr hnd
+  have h2 : (names.map String.toList).all ok = true := by
+    simp only [List.all_map, List.all_eq_true]; exact fun n hn => hok n hn
+  have e1 : ("initial" = "states") = False := by decide
+  have e2 : ("initial" = "final") = False := by decide
+  simp [parseWords, hh, h0, hnew, h1, h2, map_str_comp_toList, e1, e2]
+
+/-- a keyword line of kind `k` (`input_symbols`, `epsilon`, …): the arguments are stored unchecked -/
+theorem parseWords_keyword (k : Kind) (ok : Word → Bool) (st : Raw) {w0 : Word} {kw : String} {args : List String}
+    (h0 : str w0 = kw) (hk : kw ∈ keywords k) (hnew : st.items.lookup kw = none) :
+    parseWords k ok st (w0 :: args.map String.toList) = .ok { st with items := st.items ++ [(kw, args)] } := by
+  obtain ⟨n1, n2, n3, n4⟩ := keywords_ne k hk
+  have hh : (w0.head? == some '%') = false := by
+    rw [str_eq_iff] at h0; subst h0
+    simpa using n4
+  simp [parseWords, hh, h0, hnew, n1, n2, n3, hk, map_str_comp_toList]
+
+/-- a transition line `p q l₁ … lₙ` (n ≥ 1) -/
+theorem parseWords_trans (k : Kind) (ok : Word → Bool) (st : Raw) {p q : String} {l : Word} {labels : List Word}
+    (hp : p ∉ ["states", "final", "initial"] ++ keywords k) (hpc : p.toList.head? ≠ some '%')
+    (hpo : ok p.toList = true) (hqo : ok q.toList = true) (hl : ∀ x, x ∈ l :: labels → labelOk k x = true) :
+    parseWords k ok st (p.toList :: q.toList :: l :: labels) =
+      .ok { st with transitions := st.transitions ++ (l :: labels).map fun x => (p, x, q) } := by
+  have hh : (p.toList.head? == some '%') = false := by simpa using hpc
+  simp only [List.mem_append, List.mem_cons, List.not_mem_nil, or_false, not_or] at hp
+  obtain ⟨⟨n1, n2, n3⟩, n4⟩ := hp
+  have h2 : (l :: labels).all (labelOk k) = true := List.all_eq_true.mpr hl
+  simp only [List.all_cons, Bool.and_eq_true] at h2
+  simp [parseWords, hh, n1, n2, n3, n4, hpo, hqo, h2.1, h2.2]
+
+/-! ### `parseRaw` as a fold over the non-blank lines' words -/
+
+/-- the word lists of the non-blank lines -/
+def lineWords (ls : List Word) : List (List Word) := (ls.map splitWs).filter fun w => !w.isEmpty
+
+def parseWordLines (k : Kind) (ok : Word → Bool) (st : Raw) (wls : List (List Word)) : Except Err Raw :=
+  wls.foldlM (parseWords k ok) st
+
+@[simp] theorem parseWordLines_nil (k : Kind) (ok : Word → Bool) (st : Raw) : parseWordLines k ok st [] = .ok st := rfl
+
+theorem parseWordLines_cons (k : Kind) (ok : Word → Bool) (st : Raw) (w : List Word) (ws : List (List Word)) :
+    parseWordLines k ok st (w :: ws) = (parseWords k ok st w).bind fun st' => parseWordLines k ok st' ws := by
+  simp only [parseWordLines, List.foldlM_cons]; rfl
+
+theorem parseWordLines_cons_ok (k : Kind) (ok : Word → Bool) {st st' : Raw} {w : List Word}
+    (h : parseWords k ok st w = .ok st') (ws : List (List Word)) :
+    parseWordLines k ok st (w :: ws) = parseWordLines k ok st' ws := by
+  rw [parseWordLines_cons, h]; rfl
+
+theorem parseWordLines_append (k : Kind) (ok : Word → Bool) (st : Raw) (ws1 ws2 : List (List Word)) :
+    parseWordLines k ok st (ws1 ++ ws2) = (parseWordLines k ok st ws1).bind fun st' => parseWordLines k ok st' ws2 := by
+  simp only [parseWordLines, List.foldlM_append]; rfl
+
+theorem parseWordLines_append_ok (k : Kind) (ok : Word → Bool) {st st' : Raw} {ws1 : List (List Word)}
+    (h : parseWordLines k ok st ws1 = .ok st') (ws2 : List (List Word)) :
+    parseWordLines k ok st (ws1 ++ ws2) = parseWordLines k ok st' ws2 := by
+  rw [parseWordLines_append, h]; rfl
+
+theorem foldlM_parseLine_eq (k : Kind) (ok : Word → Bool) (st : Raw) (ls : List Word) :
+    ls.foldlM (parseLine k ok) st = parseWordLines k ok st (lineWords ls) := by
+  induction ls generalizing st with
+  | nil => rfl
+  | cons l ls ih =>
+    rw [List.foldlM_cons, parseLine_eq]
+    cases hw : splitWs l with
+    | nil =>
+      have : lineWords (l :: ls) = lineWords ls := by simp [lineWords, hw]
+      rw [this, ← ih]; rfl
+    | cons w ws =>
+      have : lineWords (l :: ls) = (w :: ws) :: lineWords ls := by simp [lineWords, hw]
+      rw [this, parseWordLines_cons]
+      cases parseWords k ok st (w :: ws) with
+      | error e => rfl
+      | ok st' => exact ih st'
+
+/-- `parseRaw` only depends on the words of the non-blank lines -/
+theorem parseRaw_eq (k : Kind) (ok : Word → Bool) (text : Word) :
+    parseRaw k ok text = parseWordLines k ok {} (lineWords (splitOn '\n' text)) :=
+  foldlM_parseLine_eq k ok {} _
+
+theorem lineWords_append (a b : List Word) : lineWords (a ++ b) = lineWords a ++ lineWords b := by
+  simp [lineWords]
+
+theorem lineWords_cons_blank {l : Word} (h : splitWs l = []) (ls : List Word) : lineWords (l :: ls) = lineWords ls := by
+  simp [lineWords, h]
+
+theorem lineWords_cons_of_ne {l : Word} (h : splitWs l ≠ []) (ls : List Word) :
+    lineWords (l :: ls) = splitWs l :: lineWords ls := by
+  cases hw : splitWs l with
+  | nil => exact absurd hw h
+  | cons w ws => simp [lineWords, hw]
+
+theorem lineWords_all_blank {ls : List Word} (h : ∀ l, l ∈ ls → splitWs l = []) : lineWords ls = [] := by
+  induction ls with
+  | nil => rfl
+  | cons l ls ih => rw [lineWords_cons_blank (h l (by simp)), ih (fun x hx => h x (List.mem_cons_of_mem _ hx))]
+
+theorem lineWords_of_ne {ls : List Word} (h : ∀ l, l ∈ ls → splitWs l ≠ []) : lineWords ls = ls.map splitWs := by
+  induction ls with
+  | nil => rfl
+  | cons l ls ih =>
+    rw [lineWords_cons_of_ne (h l (by simp)), ih (fun x hx => h x (List.mem_cons_of_mem _ hx))]; rfl
+
+/-- the empty piece after the final newline does not matter -/
+theorem lineWords_append_nil (ls : List Word) : lineWords (ls ++ [[]]) = lineWords ls := by
+  rw [lineWords_append]; simp [lineWords, splitWs]
+
+end Parse
+
+/-! ### stripping the whole text does not change what the line parser sees -/
+namespace Text
+
+theorem mem_of_mem_splitOn {sep : Char} {l p : List Char} {c : Char} (hp : p ∈ splitOn sep l) (hc : c ∈ p) : c ∈ l := by
+  induction l generalizing p with
+  | nil => simp [splitOn] at hp; subst hp; cases hc
+  | cons x xs ih =>
+    by_cases hx : x = sep
+    · subst hx
+      rw [splitOn_cons_sep] at hp
+      rcases List.mem_cons.mp hp with rfl | hp
+      · cases hc
+      · exact List.mem_cons_of_mem _ (ih hp hc)
+    · obtain ⟨q, qs, h1, h2⟩ := splitOn_cons_ne hx xs
+      rw [h2] at hp
+      rcases List.mem_cons.mp hp with rfl | hp
+      · rcases List.mem_cons.mp hc with rfl | hc
+        · simp
+        · exact List.mem_cons_of_mem _ (ih (by rw [h1]; simp) hc)
+      · exact List.mem_cons_of_mem _ (ih (by rw [h1]; exact List.mem_cons_of_mem _ hp) hc)
+
+/-- `splitOn` of a concatenation: the last piece of the left part is glued to the first piece of the right part -/
+theorem splitOn_append_spec (sep : Char) (a : List Char) :
+    ∃ init last, splitOn sep a = init ++ [last] ∧
+      ∀ b hb tb, splitOn sep b = hb :: tb → splitOn sep (a ++ b) = init ++ (last ++ hb) :: tb := by
+  induction a with
+  | nil => exact ⟨[], [], rfl, fun b hb tb h => by simpa using h⟩
+  | cons x xs ih =>
+    obtain ⟨init, last, h1, h2⟩ := ih
+    by_cases hx : x = sep
+    · subst hx
+      refine ⟨[] :: init, last, by rw [splitOn_cons_sep, h1]; rfl, ?_⟩
+      intro b hb tb h
+      rw [List.cons_append, splitOn_cons_sep, h2 b hb tb h]; rfl
+    · cases init with
+      | nil =>
+        refine ⟨[], x :: last, by simp [splitOn, hx, h1], ?_⟩
+        intro b hb tb h
+        have := h2 b hb tb h
+        simp only [List.nil_append] at this
+        simp [splitOn, hx, this]
+      | cons i is =>
+        refine ⟨(x :: i) :: is, last, by simp [splitOn, hx, h1], ?_⟩
+        intro b hb tb h
+        have := h2 b hb tb h
+        simp only [List.cons_append] at this
+        simp [splitOn, hx, this]
+
+end Text
+
+namespace Parse
+open Text
+
+theorem lineWords_splitOn_space_cons {c : Char} (hc : isSpace c = true) (t : Word) :
+    lineWords (splitOn '\n' (c :: t)) = lineWords (splitOn '\n' t) := by
+  by_cases hn : c = '\n'
+  · subst hn
+    rw [splitOn_cons_sep, lineWords_cons_blank (by rfl)]
+  · obtain ⟨p, ps, h1, h2⟩ := splitOn_cons_ne hn t
+    rw [h1, h2]
+    simp only [lineWords, List.map_cons, splitWs_space_cons hc]
+
+theorem lineWords_splitOn_spaces_append {sp : Word} (h : ∀ c, c ∈ sp → isSpace c = true) (t : Word) :
+    lineWords (splitOn '\n' (sp ++ t)) = lineWords (splitOn '\n' t) := by
+  induction sp with
+  | nil => rfl
+  | cons c cs ih =>
+    rw [List.cons_append, lineWords_splitOn_space_cons (h c (by simp)), ih (fun d hd => h d (List.mem_cons_of_mem _ hd))]
+
+theorem lineWords_splitOn_append_spaces (t : Word) {sp : Word} (h : ∀ c, c ∈ sp → isSpace c = true) :
+    lineWords (splitOn '\n' (t ++ sp)) = lineWords (splitOn '\n' t) := by
+  obtain ⟨init, last, h1, h2⟩ := splitOn_append_spec '\n' t
+  cases hs : splitOn '\n' sp with
+  | nil => exact absurd hs (splitOn_ne_nil _ _)
+  | cons hb tb =>
+    have hblank : ∀ p, p ∈ hb :: tb → splitWs p = [] := by
+      intro p hp
+      apply splitWs_all_space
+      intro c hc
+      exact h c (mem_of_mem_splitOn (by rw [hs]; exact hp) hc)
+    rw [h2 sp hb tb hs, h1, lineWords_append, lineWords_append]
+    congr 1
+    have e : splitWs (last ++ hb) = splitWs last :=
+      splitWs_append_spaces _ (fun c hc => h c (mem_of_mem_splitOn (by rw [hs]; simp) hc))
+    have e2 : lineWords tb = [] := lineWords_all_blank (fun l hl => hblank l (List.mem_cons_of_mem _ hl))
+    simp only [lineWords, List.map_cons, List.map_nil, e] at e2 ⊢
+    simp [List.filter_cons, e2]
+
+/-- `print_dfa`'s final `.strip()` is invisible to the parser -/
+theorem lineWords_splitOn_strip (t : Word) : lineWords (splitOn '\n' (strip t)) = lineWords (splitOn '\n' t) := by
+  obtain ⟨sp1, sp2, h1, h2, h3⟩ := strip_spec t
+  conv => rhs; rw [h3]
+  rw [lineWords_splitOn_append_spaces _ h2, lineWords_splitOn_spaces_append h1]
+
+theorem parseRaw_strip (k : Kind) (ok : Word → Bool) (text : Word) : parseRaw k ok (strip text) = parseRaw k ok text := by
+  rw [parseRaw_eq, parseRaw_eq, lineWords_splitOn_strip]
+
+end Parse
+
+/-! ### the printed transition lines -/
+
+/-- `List.flatMap` over the (distinct) keys of `filter (key · = k)` is a rearrangement of the list -/
+theorem flatMap_filter_perm {α κ : Type} [DecidableEq κ] (key : α → κ) (ks : List κ) (ts : List α)
+    (hnd : ks.Nodup) (hall : ∀ t, t ∈ ts → key t ∈ ks) :
+    (ks.flatMap fun k => ts.filter fun t => decide (key t = k)).Perm ts := by
+  induction ks generalizing ts with
+  | nil =>
+    cases ts with
+    | nil => exact List.Perm.refl _
+    | cons t ts => exact absurd (hall t (by simp)) (by simp)
+  | cons k ks ih =>
+    obtain ⟨hk, hnd'⟩ := List.nodup_cons.mp hnd
+    rw [List.flatMap_cons]
+    have hrest : (ks.flatMap fun k' => ts.filter fun t => decide (key t = k')) =
+        (ks.flatMap fun k' => (ts.filter fun t => !decide (key t = k)).filter fun t => decide (key t = k')) := by
+      rw [List.flatMap_def, List.flatMap_def]
+      congr 1
+      apply List.map_congr_left
+      intro k' hk'
+      rw [List.filter_filter]
+      apply List.filter_congr
+      intro t _
+      by_cases h : key t = k'
+      · have : k' ≠ k := fun e => hk (e ▸ hk')
+        simp [h, this]
+      · simp [h]
+    rw [hrest]
+    have ih' := ih (ts.filter fun t => !decide (key t = k)) hnd' (by
+      intro t ht
+      obtain ⟨ht1, ht2⟩ := List.mem_filter.mp ht
+      have := hall t ht1
+      simp only [Bool.not_eq_eq_eq_not, Bool.not_true, decide_eq_false_iff_not] at ht2
+      rcases List.mem_cons.mp this with h | h
+      · exact absurd h ht2
+      · exact h)
+    exact (List.Perm.append_left _ ih').trans (List.filter_append_perm _ ts)
+
+/-- lookups in two association lists that are rearrangements of each other, with distinct keys, agree -/
+theorem lookup_eq_of_perm {κ ν : Type} [BEq κ] [LawfulBEq κ] {l1 l2 : List (κ × ν)} (hp : l1.Perm l2)
+    (hnd : (l1.map (·.1)).Nodup) (k : κ) : l1.lookup k = l2.lookup k := by
+  have key : ∀ (l : List (κ × ν)), (l.map (·.1)).Nodup → ∀ v, (l.lookup k = some v ↔ (k, v) ∈ l) := by
+    intro l hl v
+    constructor
+    · exact mem_of_lookup_eq_some
+    · intro hm
+      apply lookup_eq_some_of_unique hm
+      intro v' hm'
+      induction l with
+      | nil => cases hm
+      | cons e l ih =>
+        obtain ⟨he, hl'⟩ := List.nodup_cons.mp (by simpa only [List.map_cons] using hl)
+        rcases List.mem_cons.mp hm with rfl | hm2
+        · rcases List.mem_cons.mp hm' with h | hm3
+          · cases h; rfl
+          · exact absurd (List.mem_map.mpr ⟨(k, v'), hm3, rfl⟩ : k ∈ l.map (·.1)) he
+        · rcases List.mem_cons.mp hm' with rfl | hm3
+          · exact absurd (List.mem_map.mpr ⟨(k, v), hm2, rfl⟩ : k ∈ l.map (·.1)) he
+          · exact ih hl' hm2 hm3
+  have hnd2 : (l2.map (·.1)).Nodup := (hp.map _).nodup_iff.mp hnd
+  cases h1 : l1.lookup k with
+  | some v => exact ((key l2 hnd2 v).mpr (hp.mem_iff.mp ((key l1 hnd v).mp h1))).symm
+  | none =>
+    cases h2 : l2.lookup k with
+    | none => rfl
+    | some v =>
+      have := (key l1 hnd v).mpr (hp.mem_iff.mpr ((key l2 hnd2 v).mp h2))
+      rw [h1] at this; cases this
+
+namespace Parse
+open Text
+
+/-- the `p q` prefix that identifies a printed transition line -/
+def pairKey (t : String × String × String) : String := t.1 ++ " " ++ t.2.1
+
+theorem transLines_eq (ts : List (String × String × String)) :
+    transLines ts = (sortStrings (dedup (ts.map pairKey))).map fun key =>
+      key ++ " " ++ joinSp ((ts.filter fun t => decide (pairKey t = key)).map (·.2.2)) := rfl
+
+/-- what a printable transition `(p, q, label)` of kind `k` must satisfy -/
+structure TransOk (k : Kind) (t : String × String × String) : Prop where
+  src : isWord t.1.toList = true
+  srcKw : t.1 ∉ ["states", "final", "initial"] ++ keywords k
+  dst : isWord t.2.1.toList = true
+  lblTok : Token t.2.2.toList
+  lblOk : labelOk k t.2.2.toList = true
+
+theorem splitWs_pairKey {t : String × String × String} (h1 : Token t.1.toList) (h2 : Token t.2.1.toList) :
+    splitWs (pairKey t).toList = [t.1.toList, t.2.1.toList] := by
+  unfold pairKey
+  rw [String.toList_append, String.toList_append, toList_space, List.append_assoc, List.singleton_append]
+  have := splitWs_token_space_intercalate h1 (ws := [t.2.1.toList]) (by simpa using h2)
+  simpa using this
+
+theorem pairKey_inj {t t' : String × String × String} (h1 : Token t.1.toList) (h2 : Token t.2.1.toList)
+    (h1' : Token t'.1.toList) (h2' : Token t'.2.1.toList) (h : pairKey t = pairKey t') :
+    t.1 = t'.1 ∧ t.2.1 = t'.2.1 := by
+  have e := splitWs_pairKey h1 h2
+  rw [h, splitWs_pairKey h1' h2'] at e
+  simp only [List.cons.injEq, String.toList_inj, and_true] at e
+  exact ⟨e.1.symm, e.2.symm⟩
+
+theorem splitWs_transLine {t : String × String × String} (h1 : Token t.1.toList) (h2 : Token t.2.1.toList)
+    {labels : List String} (hl : ∀ l, l ∈ labels → Token l.toList) :
+    splitWs (pairKey t ++ " " ++ joinSp labels).toList = t.1.toList :: t.2.1.toList :: labels.map String.toList := by
+  unfold pairKey
+  simp only [String.toList_append, toList_space, toList_joinSp, List.append_assoc, List.singleton_append]
+  rw [splitWs_token_append h1 (by simp [isSpace_space]), List.cons_append, splitWs_space_cons isSpace_space]
+  have := splitWs_token_space_intercalate h2 (ws := labels.map String.toList) (by
+    intro v hv
+    obtain ⟨l, hl', rfl⟩ := List.mem_map.mp hv
+    exact hl l hl')
+  simpa using this
+
+theorem newline_not_mem_transLine {t : String × String × String} (h1 : Token t.1.toList) (h2 : Token t.2.1.toList)
+    {labels : List String} (hl : ∀ l, l ∈ labels → Token l.toList) :
+    '\n' ∉ (pairKey t ++ " " ++ joinSp labels).toList := by
+  apply newline_not_mem_kw_joinSp
+  · unfold pairKey
+    simp only [String.toList_append, toList_space, List.mem_append, List.mem_singleton, not_or]
+    exact ⟨⟨h1.newline_not_mem, by decide⟩, h2.newline_not_mem⟩
+  · intro n hn; exact (hl n hn).newline_not_mem
+
+/-- a transition line `p q l₁ … lₙ` (n ≥ 1), second form -/
+theorem parseWords_trans' (k : Kind) (ok : Word → Bool) (st : Raw) {p q : String} {labels : List Word}
+    (hp : p ∉ ["states", "final", "initial"] ++ keywords k) (hpc : p.toList.head? ≠ some '%')
+    (hpo : ok p.toList = true) (hqo : ok q.toList = true) (hne : labels ≠ [])
+    (hl : ∀ x, x ∈ labels → labelOk k x = true) :
+    parseWords k ok st (p.toList :: q.toList :: labels) =
+      .ok { st with transitions := st.transitions ++ labels.map fun x => (p, x, q) } := by
+  cases labels with
+  | nil => exact absurd rfl hne
+  | cons l ls => exact parseWords_trans k ok st hp hpc hpo hqo hl
+
+/-- the transitions read back from `transLines ts`, in printing order -/
+def transOf (ts : List (String × String × String)) : List (String × Word × String) :=
+  (sortStrings (dedup (ts.map pairKey))).flatMap fun key =>
+    (ts.filter fun t => decide (pairKey t = key)).map fun t => (t.1, t.2.2.toList, t.2.1)
+
+theorem transOf_perm (ts : List (String × String × String)) :
+    (transOf ts).Perm (ts.map fun t => (t.1, t.2.2.toList, t.2.1)) := by
+  unfold transOf
+  rw [← List.map_flatMap]
+  apply List.Perm.map
+  apply flatMap_filter_perm pairKey _ ts (nodup_sortStrings_dedup _)
+  intro t ht
+  simp only [mem_sortStrings, mem_dedup, List.mem_map]
+  exact ⟨t, ht, rfl⟩
+
+theorem mem_transOf {ts : List (String × String × String)} {x : String × Word × String} :
+    x ∈ transOf ts ↔ ∃ t, t ∈ ts ∧ x = (t.1, t.2.2.toList, t.2.1) := by
+  rw [(transOf_perm ts).mem_iff, List.mem_map]
+  constructor
+  · rintro ⟨t, ht, rfl⟩; exact ⟨t, ht, rfl⟩
+  · rintro ⟨t, ht, rfl⟩; exact ⟨t, ht, rfl⟩
+
+theorem parseWordLines_transLines_aux (k : Kind) (ts : List (String × String × String))
+    (h : ∀ t, t ∈ ts → TransOk k t) (ks : List String) (hks : ∀ key, key ∈ ks → ∃ t, t ∈ ts ∧ pairKey t = key) (st : Raw) :
+    parseWordLines k isWord st (lineWords ((ks.map fun key =>
+        key ++ " " ++ joinSp ((ts.filter fun t => decide (pairKey t = key)).map (·.2.2))).map String.toList)) =
+      .ok { st with transitions := st.transitions ++ ks.flatMap fun key =>
+        (ts.filter fun t => decide (pairKey t = key)).map fun t => (t.1, t.2.2.toList, t.2.1) } := by
+  induction ks generalizing st with
+  | nil => simp [lineWords]
+  | cons key ks ih =>
+    obtain ⟨t0, ht0, hkey⟩ := hks key (by simp)
+    subst hkey
+    have h0 := h t0 ht0
+    have hlab : ∀ l, l ∈ (ts.filter fun t => decide (pairKey t = pairKey t0)).map (·.2.2) → Token l.toList := by
+      intro l hl
+      obtain ⟨t, ht, rfl⟩ := List.mem_map.mp hl
+      exact (h t (List.mem_filter.mp ht).1).lblTok
+    have hsplit := splitWs_transLine (isWord_token h0.src) (isWord_token h0.dst) hlab
+    simp only [List.map_cons]
+    rw [lineWords_cons_of_ne (by rw [hsplit]; simp), hsplit]
+    have hmem0 : t0 ∈ ts.filter fun t => decide (pairKey t = pairKey t0) := by
+      simp [List.mem_filter, ht0]
+    have hstep := parseWords_trans' k isWord st (p := t0.1) (q := t0.2.1)
+      (labels := ((ts.filter fun t => decide (pairKey t = pairKey t0)).map (·.2.2)).map String.toList)
+      h0.srcKw (isWord_head_ne_percent h0.src) h0.src h0.dst
+      (by
+        intro e
+        have := List.map_eq_nil_iff.mp (List.map_eq_nil_iff.mp e)
+        rw [this] at hmem0; cases hmem0)
+      (by
+        intro x hx
+        simp only [List.map_map, List.mem_map, Function.comp] at hx
+        obtain ⟨t, ht, rfl⟩ := hx
+        exact (h t (List.mem_filter.mp ht).1).lblOk)
+    rw [parseWordLines_cons_ok k isWord hstep, ih (fun key hk => hks key (List.mem_cons_of_mem _ hk))]
+    simp only [List.flatMap_cons, List.append_assoc, List.map_map]
+    congr 4
+    apply List.map_congr_left
+    intro t ht
+    have ht' := List.mem_filter.mp ht
+    have hk : pairKey t = pairKey t0 := by simpa using ht'.2
+    have ht1 := h t ht'.1
+    obtain ⟨e1, e2⟩ := pairKey_inj (isWord_token ht1.src) (isWord_token ht1.dst)
+      (isWord_token h0.src) (isWord_token h0.dst) hk
+    simp [e1, e2]
+
+/-- parsing the printed transition lines appends exactly `transOf ts` -/
+theorem parseWordLines_transLines (k : Kind) (ts : List (String × String × String))
+    (h : ∀ t, t ∈ ts → TransOk k t) (st : Raw) :
+    parseWordLines k isWord st (lineWords ((transLines ts).map String.toList)) =
+      .ok { st with transitions := st.transitions ++ transOf ts } := by
+  rw [transLines_eq]
+  apply parseWordLines_transLines_aux k ts h
+  intro key hk
+  simp only [mem_sortStrings, mem_dedup, List.mem_map] at hk
+  exact hk
+
+theorem newline_not_mem_transLines {k : Kind} {ts : List (String × String × String)}
+    (h : ∀ t, t ∈ ts → TransOk k t) : ∀ l, l ∈ transLines ts → '\n' ∉ l.toList := by
+  intro l hl
+  rw [transLines_eq] at hl
+  obtain ⟨key, hk, rfl⟩ := List.mem_map.mp hl
+  simp only [mem_sortStrings, mem_dedup, List.mem_map] at hk
+  obtain ⟨t0, ht0, rfl⟩ := hk
+  have h0 := h t0 ht0
+  apply newline_not_mem_transLine (isWord_token h0.src) (isWord_token h0.dst)
+  intro l hl
+  obtain ⟨t, ht, rfl⟩ := List.mem_map.mp hl
+  exact (h t (List.mem_filter.mp ht).1).lblTok
+
+theorem transLines_eq_nil {ts : List (String × String × String)} : transLines ts = [] ↔ ts = [] := by
+  rw [transLines_eq, List.map_eq_nil_iff, sortStrings_eq_nil, dedup_eq_nil, List.map_eq_nil_iff]
+
+end Parse
+
+namespace Parse
+open Text
+
+/-- the line parser on a text printed as `"\n".join(lines)` -/
+theorem parseRaw_intercalate_newline (k : Kind) (ok : Word → Bool) {lines : List String} (hne : lines ≠ [])
+    (h : ∀ l, l ∈ lines → '\n' ∉ l.toList) :
+    parseRaw k ok ("\n".intercalate lines).toList = parseWordLines k ok {} (lineWords (lines.map String.toList)) := by
+  rw [parseRaw_eq, splitOn_intercalate_newline hne h]
+
+/-- the line parser on a text printed as `"".join(l + "\n" for l in lines)` (print_nfa / print_pda / print_tm) -/
+theorem parseRaw_join_terminated (k : Kind) (ok : Word → Bool) {lines : List String}
+    (h : ∀ l, l ∈ lines → '\n' ∉ l.toList) :
+    parseRaw k ok ("".intercalate (lines.map (· ++ "\n"))).toList =
+      parseWordLines k ok {} (lineWords (lines.map String.toList)) := by
+  rw [parseRaw_eq, splitOn_join_terminated h, lineWords_append_nil]
+
+end Parse
+
 end Gamba
